@@ -1,12 +1,14 @@
 """C19 — invalid configuration is refused cleanly; valid configuration is accepted."""
 import json
 import re
+import threading
 
 import common as C
 import configgen as G
 from framework import Check
 
-OUT = re.compile(r"^RET (-?\d+) valid=(true|false) configured=(\S*) started=(\S*)$")
+OUT = re.compile(r"^RET (-?\d+) valid=(true|false) configured=(\S*) started=(\S*)(?: pre=(\S+)/(true|false))?$")
+SHARDS = 6
 
 
 def strip(line):
@@ -41,18 +43,36 @@ def oracle(impl_line, invalid):
     return True, "accepted"
 
 
-def classify(case, impl_line, model_line):
-    """known-finding classifier over a failing or mismatching case.
-    C19:dotted-reference — the case contains an edit that references a cluster / client-profile by a dotted name whose
-    path happens to be a set viper key (viper.IsSet("cluster.c1.servers")), the formal spec reports that reference as
-    unknown (ConsumerCluster / ProfileUnknown), and the implementation did not stop at it (it accepted the
-    configuration, or went on and stopped at a later violation)."""
-    base, edits = G.parse_head(case)
-    nreq, reqs = spec_reqs(model_line)
-    if any(G.EDITS[e]["gate"] == "C19:dotted-reference" for e in edits if e in G.EDITS) \
-            and any(r.startswith(("ConsumerCluster@", "ProfileUnknown@")) for r in reqs) and OUT.match(impl_line):
-        return "C19:dotted-reference"
-    return None
+def differential(chk, cases, name, timeout=6000):
+    """chk.differential with the probe run as SHARDS processes side by side (core.Start works on the process-global viper, so
+    one process handles one configuration at a time; most of a case's wall time is sarama's metadata retry back-off against
+    the unreachable brokers).  Case i goes to shard i mod SHARDS; outputs are put back in order."""
+    n = min(SHARDS, max(1, len(cases) // 8))
+    C.build_probe("config")       # once, before the shards ask for it
+    parts = [cases[k::n] for k in range(n)]
+    outs, errs = [None] * n, []
+
+    def work(k):
+        try:
+            outs[k] = chk.run_impl("config", "TestVerifProbeConfig", parts[k], name="%s_%d" % (name, k), timeout=timeout)
+        except Exception as e:      # re-raised in the main thread (ProbeBroken / ProbeCrashed are handled by the framework)
+            errs.append(e)
+
+    ts = [threading.Thread(target=work, args=(k,)) for k in range(n)]
+    for t in ts:
+        t.start()
+    for t in ts:
+        t.join()
+    if errs:
+        raise errs[0]
+    impl = [None] * len(cases)
+    for k in range(n):
+        impl[k::n] = outs[k]
+    model = chk.run_model("config", cases, name=name)
+    mism = [(i, c, a, b) for i, (c, a, b) in enumerate(zip(cases, impl, model)) if a != strip(b)]
+    chk.evaluations += len(cases)
+    chk.traces_validated += len(cases)
+    return impl, model, mism
 
 
 def evaluate(chk, cases, impl, model, mism, tag):
@@ -68,10 +88,13 @@ def evaluate(chk, cases, impl, model, mism, tag):
         chk.count("edits:%d" % len(edits))
         for e in edits:
             chk.count("edit-kind:" + G.EDITS[e]["kind"])
+        ctx = G.parse_ctx(c)
+        chk.count("context:" + ctx)
         chk.count("spec:" + ("invalid" if invalid else "valid"))
+        chk.count("spec/context:%s/%s" % ("invalid" if invalid else "valid", ctx))
         chk.count("impl:" + (a.split(" configured")[0] if a.startswith("RET") else a))
         if any(G.EDITS[e]["inv"] is True or (G.EDITS[e]["inv"] is None and invalid) for e in edits):
-            chk.nontrivial.add(C.case_hash(" ".join(c.split()[3:])))
+            chk.nontrivial.add(C.case_hash(G.config_part(c)))
         # catalogue <-> spec cross-check on focused single edits
         if len(edits) == 1 and base in G.EDITS[edits[0]]["on"] and G.EDITS[edits[0]]["inv"] is not None \
                 and G.EDITS[edits[0]]["inv"] != invalid:
@@ -81,13 +104,14 @@ def evaluate(chk, cases, impl, model, mism, tag):
             }, found_input=False)
         if ok and i not in mism_idx:
             continue
-        key = classify(c, a, b)
-        if key and chk.known_finding(key, c):
-            continue
         if reported >= 8:
             continue
         reported += 1
         replay = {"kind": "input", "probe": "core/TestVerifProbeConfig", "case": c, "base": base, "edits": edits,
+                  "initial_context": {"fresh": "fresh ApplicationContext (ConfigurationValid = false)",
+                                      "preset": "ApplicationContext constructed with ConfigurationValid = true",
+                                      "reuse": "ApplicationContext re-used after an earlier core.Start on a valid configuration "
+                                               "(the P-prefixed tokens of the case)"}.get(ctx, ctx),
                   "edit_descriptions": [G.EDITS[e]["what"] + " [" + G.EDITS[e]["cite"] + "]" for e in edits],
                   "spec_violations": reqs, "impl_output": a, "model_output": b, "oracle_verdict": why,
                   "cmd": "bin/check C19 --replay <this file>"}
@@ -100,36 +124,39 @@ def evaluate(chk, cases, impl, model, mism, tag):
 
 
 def run(chk, failed):
-    registered = {f["key"] for f in chk.known.get("findings", []) if f.get("property") == chk.pid}
-    cases = list(C.read_corpus(chk.pid)) + G.all_cases(chk.rng, chk.thorough, n_pairs=300, registered=registered)
-    gated = sorted({e["gate"] for e in G.E if e["gate"] and e["gate"] not in registered})
-    if gated:
-        chk.notes.append("edits gated on unregistered known-finding keys were not generated: %s (witnesses in findings/C19.json)" % gated)
+    cases = list(C.read_corpus(chk.pid)) + G.all_cases(chk.rng, chk.thorough, n_pairs=300)
     chk.rule = ("the catalogue of checks/configgen.py: 3 valid bases (core; notify = zookeeper+http/email/null notifiers+TLS "
                 "listener; kafka = client profile with TLS/SASL, cluster, kafka and kafka_zk consumers on the unreachable "
                 "127.0.0.1:1) x every single edit (%d edits: invalidating and validity-preserving) and pairs of edits "
-                "(quick: 300 sampled, 3/4 of them with both targets present in the base; thorough: all pairs); the configuration "
-                "is loaded into viper and the exported core.Start is called; non-trivial = at least one edit that the catalogue "
-                "marks invalidating (or a context-dependent edit that the formal spec finds invalid); distinct by the "
-                "resulting key/value set" % len(G.E))
-    impl, model, mism = chk.differential("config", "config", "TestVerifProbeConfig", cases, name="config", project=strip,
-                                         timeout=6000)
+                "(quick: 300 sampled, 3/4 of them with both targets present in the base; thorough: all pairs) x the state of "
+                "the ApplicationContext handed to Start (fresh / constructed with ConfigurationValid = true / re-used after an "
+                "earlier Start on a valid base; every invalidating single edit under all three); the configuration is loaded "
+                "into viper and the exported core.Start is called; non-trivial = at least one edit that the catalogue marks "
+                "invalidating (or a context-dependent edit that the formal spec finds invalid); distinct by the resulting "
+                "key/value set" % len(G.E))
+    impl, model, mism = differential(chk, cases, "config")
     evaluate(chk, cases, impl, model, mism, "config")
     shown = 0
     for i in range(len(cases)):
         base, edits = G.parse_head(cases[i])
         if len(edits) == shown and shown < 3:
-            chk.sample({"base": base, "edits": edits, "keys": [t for t in cases[i].split()[3:] if not t.startswith("F:")][:12],
+            chk.sample({"base": base, "edits": edits, "context": G.parse_ctx(cases[i]),
+                        "keys": [t for t in G.config_part(cases[i]).split() if not t.startswith("F:")][:12],
                         "impl": impl[i], "model": model[i]})
             shown += 1
     inv_pair = next((i for i in range(len(cases)) if len(G.parse_head(cases[i])[1]) == 2 and spec_reqs(model[i])[0] > 0), None)
     if inv_pair is not None:
-        chk.sample({"base_edits": cases[inv_pair].split()[1:3], "impl": impl[inv_pair], "model": model[inv_pair]})
+        chk.sample({"base_edits": cases[inv_pair].split()[1:3], "context": G.parse_ctx(cases[inv_pair]),
+                    "impl": impl[inv_pair], "model": model[inv_pair]})
+    inv_used = next((i for i in range(len(cases)) if G.parse_ctx(cases[i]) == "reuse" and spec_reqs(model[i])[0] > 0), None)
+    if inv_used is not None:
+        chk.sample({"base_edits": cases[inv_used].split()[1:3], "context": "reuse", "impl": impl[inv_used], "model": model[inv_used]})
     if failed and not chk.violations:
         chk.violation("obligation", {"kind": "theorem", "broken": [n for n, _ in failed],
                                      "detail": [d for _, d in failed]}, found_input=False)
     chk.assumptions += [
-        "viper lookup semantics are modelled in the driver glue (a key is set iff it was given; module names are atoms without dots; SetDefault values as in the code)",
+        "viper lookup semantics are modelled in the driver glue (a key is set iff it was given; module names are the second path component; a reference names a module iff it equals that component, so a dotted reference names none; SetDefault values as in the code)",
+        "of the caller's ApplicationContext only ConfigurationValid is an input of the model (ConfigValid.app_state): the other fields are written by Start or a coordinator before anything reads them (field by field in ConfigValid.v); a nil context / nil Logger makes Start build its own context, which the probe cannot observe",
         "regexp.Compile, template parsing, host:port / zookeeper path syntax, Kafka version parsing, file readability and X509 key pairs are oracle fields of the model; the catalogue's values for them are checked against the real code by the differential run",
         "start time: no Kafka broker or Zookeeper server is reachable (127.0.0.1:1); the OS grants every 127.0.0.1:0 / :0 listener; zookeeper.root-path is \"/\" in the bases so that the zookeeper coordinator's Start needs no server round trip",
         "the old recover handler (re-panic) is kept as ConfigValid.handler_old; its witness was recorded on the unfixed tree (findings/C19.json)",
@@ -143,7 +170,8 @@ def replay(path):
     impl, model, mism = chk.differential("config", "config", "TestVerifProbeConfig", [case], name="replay", project=strip)
     nreq, reqs = spec_reqs(model[0])
     ok, why = oracle(impl[0], nreq > 0)
-    print("case   :", " ".join(case.split()[:3]))
+    print("case   :", " ".join(case.split()[:3]), " context:", G.parse_ctx(case))
+    print("spec   :", ("violated: " + ",".join(reqs)) if nreq else "no requirement violated")
     print("impl   :", impl[0])
     print("model  :", model[0])
     print("oracle :", "holds" if ok else "FAILS", "-", why)
